@@ -6,7 +6,9 @@ import (
 	"crypto/rand"
 	"fmt"
 	"math"
+	"os"
 	"strconv"
+	"sync/atomic"
 	"time"
 
 	"github.com/bbockelm/cedar/security"
@@ -23,7 +25,12 @@ type Variant06 struct {
 	OneOffPos int     `json:"oneOffPos"`           // which character of the id differs (modulo its length)
 	CutFrac   float64 `json:"cutFrac"`             // where inside a frame a "mid" cut falls (0..1)
 	AnonNever bool    `json:"anonNever,omitempty"` // unauthenticated sessions by Authentication NEVER / method NONE instead of OPTIONAL with a common method
-	Placement string  `json:"placement,omitempty"` // see Server.Placement: "" (own cache), "fallback", "global"
+	Placement string  `json:"placement,omitempty"`
+	// ImportVia: which real call realises the model's Import step: "mint"
+	// (MintClaimSession with a Lifetime), "import" (ImportClaimSession of a claim id
+	// that carries SessionExpires), "filetrans" (ImportFileTransferSession with a
+	// Duration), "store" (Store of an entry with SetInherited(true) and a finite expiry).
+	ImportVia string `json:"importVia,omitempty"` // see Server.Placement: "" (own cache), "fallback", "global"
 }
 
 const serverAddr06 = "10.8.0.1:9618"
@@ -38,6 +45,7 @@ type sess06 struct {
 	CliUser   string
 	CliEnc    bool
 	cc        *security.SessionCache // the cache of the legitimate client that established it
+	Minted    bool                   // imported / minted (flag inherited, expiry, no lease), not negotiated
 }
 
 type rec06 struct {
@@ -56,7 +64,7 @@ type World06 struct {
 }
 
 type Stats06 struct {
-	RealHandshakes, Resumes, Replays, FramesOpenedByRef, LeaseRenewed, LeaseNotRenewed, RealDeclined, ExpiryReadBack int64
+	RealHandshakes, Resumes, Replays, FramesOpenedByRef, LeaseRenewed, LeaseNotRenewed, RealDeclined, ExpiryReadBack, Imports int64
 }
 
 func NewWorld06() *World06 {
@@ -86,7 +94,9 @@ func (w *World06) syncClock(i int, e *Entry, readBack bool) *Diff {
 				if !e.Alive[n-1] {
 					exp = time.Now().Add(-time.Hour)
 				}
-				cache.Store(security.NewSessionEntry(ent.ID(), ent.Addr(), ent.KeyInfo(), ent.Policy(), exp, ent.Lease(), ent.Tag()))
+				ne := security.NewSessionEntry(ent.ID(), ent.Addr(), ent.KeyInfo(), ent.Policy(), exp, ent.Lease(), ent.Tag())
+				ne.SetInherited(ent.IsInherited())
+				cache.Store(ne)
 				continue
 			}
 			model := e.Exp[n-1]
@@ -98,6 +108,7 @@ func (w *World06) syncClock(i int, e *Entry, readBack bool) *Diff {
 					d := viol(i, &e.Step, "DeadStaysDead", "after %s at virtual time %d: the lease mechanism puts the expiry of session %d at %d (duration %d, lease %d ticks), the real entry's Expiration() reads %d: the session outlives its lease and stays resumable when it should be SID_NOT_FOUND",
 						e.Step.Act, e.Now, n, model, w.dur, w.lease, real)
 					d.Sig["obs"] = "expiry"
+					d.minted = s.Minted
 					return d
 				}
 				if real < model {
@@ -105,7 +116,9 @@ func (w *World06) syncClock(i int, e *Entry, readBack bool) *Diff {
 				}
 			}
 			exp := time.Now().Add(time.Duration(model-e.Now)*tickUnit + tickUnit/2)
-			cache.Store(security.NewSessionEntry(ent.ID(), ent.Addr(), ent.KeyInfo(), ent.Policy(), exp, ent.Lease(), ent.Tag()))
+			ne := security.NewSessionEntry(ent.ID(), ent.Addr(), ent.KeyInfo(), ent.Policy(), exp, ent.Lease(), ent.Tag())
+			ne.SetInherited(ent.IsInherited()) // the replacement keeps every attribute of the entry but the expiry
+			cache.Store(ne)
 		}
 	}
 	return nil
@@ -177,6 +190,14 @@ func broken(i int, format string, a ...any) *Diff {
 // difference (nil = conforms).
 func Run06(sc *Scenario, v Variant06) (*Diff, *Stats06) {
 	d, st := run06(sc, v)
+	if d != nil && d.Sig != nil && d.minted {
+		d.Sig["origin"] = "imported"
+		via := v.ImportVia
+		if via == "" {
+			via = "mint"
+		}
+		d.Detail = "[session imported on the server via " + via + ": flagged inherited, finite expiry, no lease] " + d.Detail
+	}
 	if d != nil && v.Placement != "" && v.Placement != "own" {
 		if d.Sig != nil {
 			d.Sig["placement"] = v.Placement
@@ -205,30 +226,62 @@ func run06(sc *Scenario, v Variant06) (*Diff, *Stats06) {
 			}
 		}
 	}()
+	// A session that SessionCache.Lookup still returns after its expiry is recorded,
+	// but the behaviour is followed on: a resumption (or replay) of that session
+	// accepted by the real ServerHandshake is the stronger observation and replaces it.
+	var pending *Diff
+	finish := func(d *Diff) (*Diff, *Stats06) {
+		if pending != nil && (d == nil || d.Kind != "violation") {
+			return pending, &w.St
+		}
+		return d, &w.St
+	}
 	for i := range sc.H {
 		e := &sc.H[i]
 		if d := w.step(i, e, v); d != nil {
-			return d, &w.St
+			d.minted = w.concernsMinted(&e.Step)
+			return finish(d)
 		}
 		// post-state: read the expiries back, bind the clock, then compare what the real cache answers
 		if d := w.syncClock(i, e, e.Step.Act != "Tick"); d != nil {
-			return d, &w.St
+			return finish(d)
 		}
 		for n := 1; n <= len(e.Alive); n++ {
 			s := w.sess[n]
 			if s == nil {
-				return broken(i, "model has session %d the harness never saw", n), &w.St
+				return finish(broken(i, "model has session %d the harness never saw", n))
 			}
 			_, realAlive := w.srv.Sessions().Lookup(s.ID)
 			if realAlive && !e.Alive[n-1] {
-				return viol(i, &e.Step, "DeadStaysDead", "after %s: session %d is expired/invalidated in the model but SessionCache.Lookup still returns it", e.Step.Act, n), &w.St
+				d := viol(i, &e.Step, "DeadStaysDead", "after %s: session %d is expired/invalidated in the model but SessionCache.Lookup still returns it", e.Step.Act, n)
+				d.Sig["obs"] = "lookup"
+				d.minted = s.Minted
+				if pending == nil {
+					pending = d
+				}
+				continue
 			}
 			if !realAlive && e.Alive[n-1] {
-				return broken(i, "after %s: session %d should be alive but the real cache does not return it", e.Step.Act, n), &w.St
+				return finish(broken(i, "after %s: session %d should be alive but the real cache does not return it", e.Step.Act, n))
 			}
 		}
 	}
-	return nil, &w.St
+	return finish(nil)
+}
+
+// concernsMinted: the step's session was imported / minted rather than negotiated.
+func (w *World06) concernsMinted(st *Step) bool {
+	n := st.Sid
+	switch st.Act {
+	case "Resume":
+		n = st.Tgt
+	case "Replay":
+		if st.Rec >= 1 && st.Rec <= len(w.recs) {
+			n = w.recs[st.Rec-1].Sid
+		}
+	}
+	s := w.sess[n]
+	return s != nil && s.Minted
 }
 
 func (w *World06) step(i int, e *Entry, v Variant06) *Diff {
@@ -237,6 +290,8 @@ func (w *World06) step(i int, e *Entry, v Variant06) *Diff {
 	switch st.Act {
 	case "Establish":
 		return w.establish(i, st)
+	case "Import":
+		return w.importSession(i, st, v.ImportVia)
 	case "Tick":
 		return nil // the clock is bound by syncClock after the step
 	case "Renew":
@@ -246,6 +301,9 @@ func (w *World06) step(i int, e *Entry, v Variant06) *Diff {
 			return broken(i, "Renew: live session %d not found by Lookup", st.Sid)
 		}
 		ent.RenewLease()
+		if s.Minted {
+			return nil // no lease: the read-back in syncClock requires the expiry to be unchanged
+		}
 		if w.renewed(s.ID) {
 			w.St.LeaseRenewed++
 		} else {
@@ -298,6 +356,98 @@ func (w *World06) establish(i int, st *Step) *Diff {
 	if !log.AppRecv || !bytes.Equal(log.AppMsg, MsgC2S) || !bytes.Equal(cr.Got, MsgS2C) {
 		return broken(i, "Establish: application exchange failed after the full handshake (%v / %v)", log.AppErr, cr.GotErr)
 	}
+	w.sess[st.Sid] = s
+	return nil
+}
+
+var claimSeq int64
+
+// importSession realises the model's Import step: a keyed, authenticated session
+// flagged inherited, with a finite expiry (Duration ticks) and no lease, comes into
+// existence on the server through one of cedar's import / mint calls; the
+// legitimate peer imports the same claim into its own cache.
+func (w *World06) importSession(i int, st *Step, via string) *Diff {
+	if via == "" {
+		via = "mint"
+	}
+	dur := w.dur
+	if dur <= 0 {
+		dur = 2
+	}
+	life := time.Duration(dur) * tickUnit
+	seq := atomic.AddInt64(&claimSeq, 1)
+	mo := security.MintClaimOptions{
+		Sinful:      fmt.Sprintf("<10.8.0.1:9618?sock=startd_%d_%d_c06>", os.Getpid(), seq),
+		Birthdate:   1700000000 + seq,
+		SequenceNum: int(seq),
+		Lifetime:    life,
+	}
+	srvCache := w.srv.Sessions()
+	cc := security.NewSessionCache()
+	co := security.ClaimSessionOptions{PeerAddr: w.srv.Addr, ExtraValidCommands: []int{CmdInt["c1"]}}
+	var id, claim string
+	var err error
+	switch via {
+	case "mint":
+		var m *security.MintedClaim
+		if m, err = security.MintClaimSession(srvCache, mo); err == nil {
+			id, claim = m.SessionID(), m.ClaimID()
+			_, err = security.ImportClaimSession(cc, claim, co)
+		}
+	case "import", "store":
+		var m *security.MintedClaim
+		scratch := security.NewSessionCache()
+		if m, err = security.MintClaimSession(scratch, mo); err != nil {
+			break
+		}
+		claim = m.ClaimID()
+		if via == "import" {
+			id, err = security.ImportClaimSession(srvCache, claim, security.ClaimSessionOptions{})
+		} else {
+			id = m.SessionID()
+			e, ok := scratch.Lookup(id)
+			if !ok {
+				return broken(i, "Import(store): minted session not found")
+			}
+			ne := security.NewSessionEntry(id, ClientAddrSame, e.KeyInfo(), e.Policy(), time.Now().Add(life), 0, "")
+			ne.SetInherited(true)
+			srvCache.Store(ne)
+		}
+		if err == nil {
+			_, err = security.ImportClaimSession(cc, claim, co)
+		}
+	case "filetrans":
+		var m *security.MintedClaim
+		mo.Lifetime = 0
+		if m, err = security.MintClaimSession(security.NewSessionCache(), mo); err != nil {
+			break
+		}
+		claim = m.ClaimID()
+		if id, err = security.ImportFileTransferSession(srvCache, claim, security.ClaimSessionOptions{Duration: life}); err == nil {
+			_, err = security.ImportFileTransferSession(cc, claim, co)
+		}
+	default:
+		return broken(i, "unknown import realisation %q", via)
+	}
+	if err != nil {
+		return broken(i, "Import(%s) failed: %v", via, err)
+	}
+	ent, ok := srvCache.Lookup(id)
+	if !ok || ent.KeyInfo() == nil || !ent.IsInherited() || ent.Expiration().IsZero() {
+		return broken(i, "Import(%s): the server entry is not a keyed, inherited-flagged session with a finite expiry", via)
+	}
+	s := &sess06{ID: id, Keyed: true, Key: append([]byte(nil), ent.KeyInfo().Data...), CliAuthed: true, CliEnc: true, cc: cc, Minted: true}
+	s.SrvAuthed, _ = ent.Policy().EvaluateAttrBool("Authenticated")
+	s.SrvUser, _ = ent.Policy().EvaluateAttrString("User")
+	if ce := w.legitEntry(s); ce != nil {
+		s.CliUser, _ = ce.Policy().EvaluateAttrString("User")
+	} else {
+		return broken(i, "Import(%s): the peer's cache does not hold the session", via)
+	}
+	if !s.SrvAuthed {
+		return broken(i, "Import(%s): session not recorded as authenticated", via)
+	}
+	w.St.Imports++
 	w.sess[st.Sid] = s
 	return nil
 }
@@ -604,7 +754,9 @@ func (w *World06) resume(i int, st *Step, v Variant06) *Diff {
 			return d
 		}
 	}
-	if w.renewed(s.ID) {
+	if s.Minted {
+		// no lease to renew
+	} else if w.renewed(s.ID) {
 		w.St.LeaseRenewed++
 	} else {
 		w.St.LeaseNotRenewed++
